@@ -14,6 +14,8 @@ func main() {
 	seed := flag.Uint64("seed", 1, "PRNG seed")
 	tier := flag.String("tier", "quick", "quick|thorough")
 	out := flag.String("out", "", "output directory")
+	flag.IntVar(&core.Shard, "shard", 0, "worker index (internal)")
+	flag.IntVar(&core.Shards, "shards", 1, "number of workers (internal)")
 	flag.Parse()
 	if flag.NArg() < 1 || *out == "" {
 		names := []string{}
